@@ -427,10 +427,10 @@ pub fn get_op_log_size() -> (u64, u64) {
 
 pub fn read_operations_since(since: u64) -> HashMap<String, OpLogRecord> {
     let mut opps_since = HashMap::new();
-    let f = get_log_file_read_mode(&Oplog::get_op_log_file_name());
-    read_operations_since_from_file(f, since, &mut opps_since);
-
-    let oplog_entries = get_op_log_entries_by_creation_date();
+    // Oldest file first and the current file last: the most recent record of a key must be
+    // the one that stays in the map
+    let mut oplog_entries = get_op_log_entries_by_creation_date();
+    oplog_entries.reverse();
     for oplog_file_entry in oplog_entries {
         let file_name = oplog_file_entry.file_name().into_string().unwrap();
         if file_name.ends_with(".op") {
@@ -439,6 +439,8 @@ pub fn read_operations_since(since: u64) -> HashMap<String, OpLogRecord> {
             read_operations_since_from_file(f, since, &mut opps_since);
         }
     }
+    let f = get_log_file_read_mode(&Oplog::get_op_log_file_name());
+    read_operations_since_from_file(f, since, &mut opps_since);
 
     opps_since
 }
@@ -481,7 +483,13 @@ fn read_operations_since_from_file(
     let mut oop_buffer = [0; 1];
     f.seek(SeekFrom::Start(seek_point)).unwrap();
     let now = Instant::now();
-    let mut opp_count: u64 = 0;
+    // Positions keep counting over all the files read so far, so sorting by position gives the
+    // insert order even when the log spans several files
+    let mut opp_count: u64 = opps_since
+        .values()
+        .map(|opp| opp.opp_position)
+        .max()
+        .unwrap_or(0);
     while let Ok(i) = f.read(&mut time_buffer) {
         //Read key from disk
         let possible_records = (max - min) / size_as_u64;
